@@ -49,14 +49,35 @@ func (x *Exec) frameDo(st *State, where string, assumeOnly map[string]bool) {
 	if where != "" {
 		sfx = "@" + where
 	}
+	var pending []*Obligation
 	emit := func(o *Obligation) {
 		if assumeOnly != nil {
 			st.assume(o.Goal)
 			return
 		}
-		o.Label += sfx
-		x.emit(o, st)
+		pending = append(pending, o)
 	}
+	defer func() {
+		if len(pending) == 0 {
+			return
+		}
+		if x.SplitFrames || len(pending) == 1 {
+			for _, o := range pending {
+				o.Label += sfx
+				x.emit(o, st)
+			}
+			return
+		}
+		// one obligation per path: the conjunction of the per-heap frame conditions
+		var goals []smt.T
+		var what []string
+		for _, o := range pending {
+			goals = append(goals, o.Goal)
+			what = append(what, o.Label)
+		}
+		x.emit(&Obligation{Kind: "frame", Label: "unchanged-outside-modifies" + sfx, Facts: st.facts, Goal: smt.And(goals...),
+			Source: "modifies " + strings.Join(ct.Modifies, ", ") + " — heaps touched on this path: " + strings.Join(what, ", ")}, st)
+	}()
 	if st.gen != x.entry.gen {
 		if assumeOnly != nil {
 			return
@@ -88,13 +109,15 @@ func (x *Exec) frameDo(st *State, where string, assumeOnly map[string]bool) {
 		}
 		if i := strings.Index(loc, "("); i > 0 && strings.HasSuffix(loc, ")") {
 			if g, ok := x.P.Ghosts[loc[:i]]; ok {
-				hn, _ := x.ghostHeap(g)
 				inner := strings.TrimSpace(loc[i+1 : len(loc)-1])
 				if inner == "*" || inner == "" {
-					ds = append(ds, desig{heap: hn, all: true})
+					for _, v := range x.ghostVariants(g, 0, nil) {
+						ds = append(ds, desig{heap: v[0], all: true})
+					}
 					continue
 				}
 				var idx []smt.T
+				var sorts []string
 				bad := false
 				for _, a := range splitTopLevel(inner) {
 					t, err := x.evalExpr(mustParse(a), ectx)
@@ -104,9 +127,12 @@ func (x *Exec) frameDo(st *State, where string, assumeOnly map[string]bool) {
 						break
 					}
 					idx = append(idx, t)
+					sorts = append(sorts, t.Sort)
 				}
 				if !bad {
-					ds = append(ds, desig{heap: hn, idx: idx})
+					for _, v := range x.ghostVariants(g, len(idx), sorts) {
+						ds = append(ds, desig{heap: v[0], idx: idx})
+					}
 				}
 				continue
 			}
